@@ -107,6 +107,10 @@ def _shape(rng, d, hi, k, idx):
         return (2,) * d, "min"
     if k == 1 and idx % 8 == 7:
         return (int(rng.integers(3, hi + 1)),) * d, "square"
+    if k == 3:  # one long axis (49..64 cells) with thin other axes: cheap, and reaches the many-small-eigenvalue regime in every tier
+        s = [int(rng.integers(2, 7)) for _ in range(d)]
+        s[int(rng.integers(d))] = int(rng.integers(49, 65))
+        return tuple(s), "long-axis"
     if k == 2:  # at the upper end of the size range
         s = tuple(int(x) for x in rng.integers(max(2, hi - 6), hi + 1, size=d))
         return s, "large"
@@ -275,6 +279,19 @@ def run_shard(sh, rec):
             if uv is None:
                 rec.case(None)
                 continue
+            # a vector right-hand side with an exactly-zero component (and a constant one): every component of the caller's
+            # output must still be written (it is pre-filled with NaN sentinels by solve())
+            fz = util.field(rng, (3, *shape), "noise", real_t)
+            zc = int(rng.integers(3))
+            fz[zc] = 0
+            fz[(zc + 1) % 3] = real_t(2.5)
+            uz = solve(fz, "vector_field_solve")
+            rec.count("vector_solves_with_zero_component")
+            if uz is not None:
+                scale_z = eps * 64 * max(shape) ** 2 * (float(np.max(np.abs(uz))) + 1e-30)
+                if float(np.max(np.abs(uz[zc]))) > scale_z or float(np.max(np.abs(uz[(zc + 1) % 3]))) > scale_z:
+                    rec.violation("vector-solve-zero/constant-component!=0", f"component {zc} (zero rhs) max|u|={float(np.max(np.abs(uz[zc]))):.3g}, component {(zc + 1) % 3} "
+                                  f"(constant rhs) max|u|={float(np.max(np.abs(uz[(zc + 1) % 3]))):.3g} {meta}", {"meta": meta})
             ucs = [solve(fv[c]) for c in range(3)]
             if any(x is None for x in ucs):
                 continue
